@@ -132,7 +132,7 @@ def o_frame(root, pre, op, res, extra):
         return out
     # siblings keep their text (generated models only)
     pm = pre.parent
-    if isinstance(pm, models.CostSpec) and kind in ('value-set', 'cost-set'):
+    if isinstance(pm, models.CostSpec) and kind in ('value-set', 'cost-set', 'cost-raw-set'):
         return out  # the cost group re-shapes its single child by design (C09)
     if pre.child_texts is not None and kind in ('opt-set', 'req-set', 'value-set') or (pre.child_texts is not None and kind.startswith(('rep-', 'view-', 'meta-'))):
         changed_field = op.get('field')
@@ -390,8 +390,16 @@ def run_sessions(ctx, nsessions, nops, oracles, *, syntax_preserving=False, malf
             continue
         ctx.count('doc:accepted')
         ops = []
+        focus = None
+        if r.random() < 0.6:
+            cands = [list(p) for p, m in intro.walk_api(root)
+                     if isinstance(m, (models.Posting, models.Transaction, models.Open, models.Balance, models.Custom, models.MetaItem,
+                                       models.Note, models.Plugin, models.Pushmeta, models.CostSpec, models.UnitPrice, models.TotalPrice,
+                                       models.CompoundAmount, models.Price, models.Document, models.Close))]
+            if cands:
+                focus = r.choice(cands)
         for step in range(nops):
-            op = edits.gen_op(r, root, syntax_preserving=syntax_preserving, malformed=malformed, kinds=kinds)
+            op = edits.gen_op(r, root, syntax_preserving=syntax_preserving, malformed=malformed, kinds=kinds, focus=focus)
             if op is None:
                 break
             pre = Snapshot(root, op)
